@@ -11,10 +11,19 @@ def expected (log : List SendRec) (j : Nat) (k : Kind) : List Dgram :=
   (log.filter (fun r => decide (r.dst = j) && decide (r.status = .sent) && r.bound && kAccepts k r.src)).map
     (fun r => ⟨r.src, r.data⟩)
 
+/-- what `recv` into the adapter's buffer makes of a queued datagram -/
+def cut (d : Dgram) : Dgram := kRecv bufLen d
+
+theorem cutK_src (k : Kind) (d : Dgram) : (cutK k d).src = d.src := by
+  cases k <;> rfl
+
+theorem cutK_lib (k : Kind) (hk : k ≠ .raw) (d : Dgram) : cutK k d = cut d := by
+  cases k <;> first | rfl | exact absurd rfl hk
+
 structure SockInv (w : World) (j : Nat) (s : Sock) : Prop where
-  small : ∀ d ∈ s.accepted, d.data.length ≤ kMax
   peer : ∀ p, s.kind = .connected p → ∀ d ∈ s.accepted, d.src = p
-  split : s.events.map evDgram ++ s.queue = s.accepted
+  split : s.events.map evDgram ++ s.queue.map (cutK s.kind) = s.accepted.map (cutK s.kind)
+  queued : ∀ d ∈ s.queue, d ∈ s.accepted
   rid : ∀ e ∈ s.events, e.ep.rid = j
   exp : s.accepted = expected w.log j s.kind
   srcs : ∀ d ∈ s.accepted, d.src < w.socks.length
@@ -22,11 +31,16 @@ structure SockInv (w : World) (j : Nat) (s : Sock) : Prop where
 structure Inv (w : World) : Prop where
   socks : ∀ j s, w.socks[j]? = some s → SockInv w j s
   bound : ∀ r ∈ w.log, r.bound = true → r.dst < w.socks.length
+  kmaxGe : maxLen ≤ w.kmax
+  libSmall : ∀ r ∈ w.log, r.viaLibrary = true → r.status = .sent → r.data.length ≤ maxLen
 
-theorem inv_init : Inv {} := ⟨by intro j s h; simp at h, by intro r h; simp at h⟩
+theorem maxLen_le4 : maxLen ≤ kMax4 := by decide
+theorem maxLen_le6 : maxLen ≤ kMax6 := by decide
+theorem maxLen_le_buf : maxLen ≤ bufLen := by decide
 
-theorem bufLen_ge : kMax ≤ bufLen := by decide
-theorem maxLen_le : maxLen ≤ kMax := by decide
+theorem inv_init (v6 : Bool) : Inv (init v6) :=
+  ⟨by intro j s h; simp [init] at h, by intro r h; simp [init] at h,
+   by cases v6 <;> simp [init, maxLen_le4, maxLen_le6], by intro r h; simp [init] at h⟩
 
 theorem expected_append (log : List SendRec) (r : SendRec) (j : Nat) (k : Kind) :
     expected (log ++ [r]) j k =
@@ -63,7 +77,7 @@ theorem inv_open (w : World) (k : Kind) (h : Inv w) :
     by_cases hlt : j < w.socks.length
     · rw [List.getElem?_append_left hlt] at hj
       have hs := h.socks j s hj
-      exact ⟨hs.small, hs.peer, hs.split, hs.rid, hs.exp, fun d hd => by
+      exact ⟨hs.peer, hs.split, hs.queued, hs.rid, hs.exp, fun d hd => by
         have := hs.srcs d hd; simp only [List.length_append, List.length_cons, List.length_nil]; omega⟩
     · have hge : w.socks.length ≤ j := Nat.le_of_not_lt hlt
       rw [List.getElem?_append_right hge] at hj
@@ -90,13 +104,20 @@ theorem inv_open (w : World) (k : Kind) (h : Inv w) :
   · intro r hr hb
     have := h.bound r hr hb
     simp only [List.length_append, List.length_cons, List.length_nil]; omega
+  · exact h.kmaxGe
+  · exact h.libSmall
 
 /-- a send call that reached the kernel and was taken -/
-theorem inv_sent (w : World) (src dst : Nat) (data : Bytes) (h : Inv w) (hsrc : src < w.socks.length)
-    (hlen : data.length ≤ kMax) :
-    Inv { socks := enqueue w.socks dst ⟨src, data⟩,
-          log := w.log ++ [⟨src, dst, data, .sent, decide (dst < w.socks.length)⟩] } := by
-  constructor
+theorem inv_sent (w : World) (src dst : Nat) (data : Bytes) (lib : Bool) (h : Inv w) (hsrc : src < w.socks.length)
+    (hlen : lib = true → data.length ≤ maxLen) :
+    Inv { w with socks := enqueue w.socks dst ⟨src, data⟩,
+                 log := w.log ++ [⟨src, dst, data, .sent, decide (dst < w.socks.length), lib⟩] } := by
+  refine ⟨?_, ?_, h.kmaxGe, ?_⟩
+  rotate_left 2
+  · intro r hr hl hst
+    rcases List.mem_append.mp hr with hr | hr
+    · exact h.libSmall r hr hl hst
+    · simp only [List.mem_singleton] at hr; subst hr; exact hlen hl
   · intro j s hj
     simp only at hj
     rw [getElem?_enqueue] at hj
@@ -115,10 +136,6 @@ theorem inv_sent (w : World) (src dst : Nat) (data : Bytes) (h : Inv w) (hsrc : 
         · simp only [hacc, if_true] at hj
           subst hj
           refine ⟨?_, ?_, ?_, hs.rid, ?_, ?_⟩
-          · intro d hd
-            rcases List.mem_append.mp hd with hd | hd
-            · exact hs.small d hd
-            · simp only [List.mem_singleton] at hd; subst hd; exact hlen
           · intro p hp d hd
             rcases List.mem_append.mp hd with hd | hd
             · exact hs.peer p hp d hd
@@ -127,7 +144,11 @@ theorem inv_sent (w : World) (src dst : Nat) (data : Bytes) (h : Inv w) (hsrc : 
               rw [hp] at hacc
               simp only [kAccepts, beq_iff_eq] at hacc
               exact hacc.symm
-          · simp only; rw [← List.append_assoc, hs.split]
+          · simp only [List.map_append]; rw [← List.append_assoc, hs.split]
+          · intro d hd
+            rcases List.mem_append.mp hd with hd | hd
+            · exact List.mem_append_left _ (hs.queued d hd)
+            · exact List.mem_append_right _ hd
           · simp only
             rw [expected_append, ← hs.exp]
             simp [hdlt, hacc]
@@ -139,14 +160,14 @@ theorem inv_sent (w : World) (src dst : Nat) (data : Bytes) (h : Inv w) (hsrc : 
         · simp only [hacc] at hj
           simp only [Bool.false_eq_true, if_false] at hj
           subst hj
-          refine ⟨hs.small, hs.peer, hs.split, hs.rid, ?_, ?_⟩
+          refine ⟨hs.peer, hs.split, hs.queued, hs.rid, ?_, ?_⟩
           · simp only
             rw [expected_append, ← hs.exp]
             simp [hacc]
           · intro d hd; simp only [length_enqueue]; exact hs.srcs d hd
     · simp only [hd, if_false] at hj
       have hs := h.socks j s hj
-      refine ⟨hs.small, hs.peer, hs.split, hs.rid, ?_, ?_⟩
+      refine ⟨hs.peer, hs.split, hs.queued, hs.rid, ?_, ?_⟩
       · simp only
         rw [expected_append, ← hs.exp]
         simp [hd]
@@ -159,13 +180,18 @@ theorem inv_sent (w : World) (src dst : Nat) (data : Bytes) (h : Inv w) (hsrc : 
       simpa using hb
 
 /-- a send call refused before anything was transmitted -/
-theorem inv_refused (w : World) (src dst : Nat) (data : Bytes) (st : Status) (b : Bool) (h : Inv w)
+theorem inv_refused (w : World) (src dst : Nat) (data : Bytes) (st : Status) (b lib : Bool) (h : Inv w)
     (hst : st ≠ .sent) :
-    Inv { socks := w.socks, log := w.log ++ [⟨src, dst, data, st, b && decide (dst < w.socks.length)⟩] } := by
-  constructor
+    Inv { w with socks := w.socks, log := w.log ++ [⟨src, dst, data, st, b && decide (dst < w.socks.length), lib⟩] } := by
+  refine ⟨?_, ?_, h.kmaxGe, ?_⟩
+  rotate_left 2
+  · intro r hr hl hs'
+    rcases List.mem_append.mp hr with hr | hr
+    · exact h.libSmall r hr hl hs'
+    · simp only [List.mem_singleton] at hr; subst hr; exact absurd hs' hst
   · intro j s hj
     have hs := h.socks j s hj
-    refine ⟨hs.small, hs.peer, hs.split, hs.rid, ?_, hs.srcs⟩
+    refine ⟨hs.peer, hs.split, hs.queued, hs.rid, ?_, hs.srcs⟩
     simp only
     rw [expected_append, ← hs.exp]
     simp [hst]
@@ -176,13 +202,14 @@ theorem inv_refused (w : World) (src dst : Nat) (data : Bytes) (st : Status) (b 
       simp only [Bool.and_eq_true, decide_eq_true_eq] at hb
       exact hb.2
 
-theorem take_of_small (d : Dgram) (h : d.data.length ≤ kMax) : kRecv bufLen d = d := by
-  unfold kRecv
-  have : d.data.take bufLen = d.data := List.take_of_length_le (Nat.le_trans h bufLen_ge)
+/-- a datagram within the declared maximum fits the buffer: nothing is cut -/
+theorem cut_of_small (d : Dgram) (h : d.data.length ≤ maxLen) : cut d = d := by
+  unfold cut kRecv
+  have : d.data.take bufLen = d.data := List.take_of_length_le (Nat.le_trans h maxLen_le_buf)
   rw [this]
 
 theorem recvLoop_map (i : Nat) (k : Kind) (q : List Dgram) :
-    recvLoop i k q = q.map (fun d => evOf i k (kRecv bufLen d)) := by
+    recvLoop i k q = q.map (fun d => evOf i k (cutK k d)) := by
   induction q with
   | nil => rfl
   | cons d q ih => simp [recvLoop, ih]
@@ -194,15 +221,14 @@ theorem evDgram_evOf (i : Nat) (k : Kind) (d : Dgram) (hp : ∀ p, k = .connecte
   | listener => rfl
   | raw => rfl
 
-theorem recvLoop_dgrams (i : Nat) (k : Kind) (q : List Dgram) (hs : ∀ d ∈ q, d.data.length ≤ kMax)
-    (hp : ∀ p, k = .connected p → ∀ d ∈ q, d.src = p) : (recvLoop i k q).map evDgram = q := by
+theorem recvLoop_dgrams (i : Nat) (k : Kind) (q : List Dgram)
+    (hp : ∀ p, k = .connected p → ∀ d ∈ q, d.src = p) : (recvLoop i k q).map evDgram = q.map (cutK k) := by
   induction q with
   | nil => rfl
   | cons d q ih =>
-    rw [recvLoop, List.map_cons]
-    rw [take_of_small d (hs d (List.mem_cons_self ..)),
-      evDgram_evOf i k d (fun p hk => hp p hk d (List.mem_cons_self ..)),
-      ih (fun x hx => hs x (List.mem_cons_of_mem _ hx)) (fun p hk x hx => hp p hk x (List.mem_cons_of_mem _ hx))]
+    rw [recvLoop, List.map_cons, List.map_cons]
+    rw [evDgram_evOf i k (cutK k d) (fun p hk => by rw [cutK_src]; exact hp p hk d (List.mem_cons_self ..)),
+      ih (fun p hk x hx => hp p hk x (List.mem_cons_of_mem _ hx))]
 
 theorem recvLoop_rid (i : Nat) (k : Kind) (q : List Dgram) : ∀ e ∈ recvLoop i k q, e.ep.rid = i := by
   induction q with
@@ -231,12 +257,10 @@ theorem inv_poll (w : World) (i : Nat) (h : Inv w) : Inv (poll w i) := by
       · subst hij
         simp only [if_true] at hj
         subst hj
-        have hq : ∀ d ∈ s0.queue, d ∈ s0.accepted := by
-          intro d hd; rw [← hs.split]; exact List.mem_append_right _ hd
-        refine ⟨hs.small, hs.peer, ?_, ?_, hs.exp, fun d hd => by rw [hlen]; exact hs.srcs d hd⟩
-        · simp only [List.map_append, List.append_nil]
-          rw [recvLoop_dgrams i s0.kind s0.queue (fun d hd => hs.small d (hq d hd))
-            (fun p hk d hd => hs.peer p hk d (hq d hd))]
+        have hq : ∀ d ∈ s0.queue, d ∈ s0.accepted := hs.queued
+        refine ⟨hs.peer, ?_, by simp, ?_, hs.exp, fun d hd => by rw [hlen]; exact hs.srcs d hd⟩
+        · simp only [List.map_append, List.map_nil, List.append_nil]
+          rw [recvLoop_dgrams i s0.kind s0.queue (fun p hk d hd => hs.peer p hk d (hq d hd))]
           exact hs.split
         · intro e he
           rcases List.mem_append.mp he with he | he
@@ -244,21 +268,23 @@ theorem inv_poll (w : World) (i : Nat) (h : Inv w) : Inv (poll w i) := by
           · exact recvLoop_rid i s0.kind s0.queue e he
       · simp only [hij, if_false] at hj
         subst hj
-        exact ⟨hs.small, hs.peer, hs.split, hs.rid, hs.exp, fun d hd => by rw [hlen]; exact hs.srcs d hd⟩
+        exact ⟨hs.peer, hs.split, hs.queued, hs.rid, hs.exp, fun d hd => by rw [hlen]; exact hs.srcs d hd⟩
   · intro r hr hb
     have : (poll w i).socks.length = w.socks.length := by unfold poll; simp
     rw [this]; exact h.bound r hr hb
+  · exact h.kmaxGe
+  · exact h.libSmall
 
 theorem inv_sendPacket (w : World) (src dst : Nat) (data : Bytes) (h : Inv w) (hsrc : src < w.socks.length) :
-    Inv (record w src dst data (sendPacket w.socks src dst data)).1 := by
+    Inv (record w src dst data (sendPacket w.kmax w.socks src dst data)).1 := by
   unfold record sendPacket
   by_cases hlen : data.length > maxLen
   · simp only [hlen, if_true]
-    have := inv_refused w src dst data .maxPacketSizeExceeded true h (by decide)
+    have := inv_refused w src dst data .maxPacketSizeExceeded true true h (by decide)
     simpa using this
-  · have hk : ¬ data.length > kMax := by have := maxLen_le; omega
+  · have hk : ¬ data.length > w.kmax := by have := h.kmaxGe; omega
     simp only [hlen, if_false, kSend, hk]
-    exact inv_sent w src dst data h hsrc (by omega)
+    exact inv_sent w src dst data true h hsrc (fun _ => by omega)
 
 theorem inv_send (w : World) (ep : Endpoint) (data : Bytes) (h : Inv w) : Inv (send w ep data).1 := by
   unfold send
@@ -279,12 +305,12 @@ theorem inv_rawSend (w : World) (i dst : Nat) (data : Bytes) (h : Inv w) : Inv (
   | some s =>
     have hlt : i < w.socks.length := (List.getElem?_eq_some_iff.mp hs).1
     simp only [kSend]
-    by_cases hlen : data.length > kMax
+    by_cases hlen : data.length > w.kmax
     · simp only [hlen, if_true]
-      have := inv_refused w i dst data .maxPacketSizeExceeded true h (by decide)
+      have := inv_refused w i dst data .maxPacketSizeExceeded true false h (by decide)
       simpa using this
     · simp only [hlen, if_false]
-      exact inv_sent w i dst data h hlt (by omega)
+      exact inv_sent w i dst data false h hlt (fun hf => by simp at hf)
 
 theorem inv_step (w : World) (a : Act) (h : Inv w) : Inv (step w a) := by
   cases a with
@@ -301,7 +327,7 @@ theorem inv_run (acts : List Act) : ∀ (w : World), Inv w → Inv (run w acts) 
   | cons a as ih => intro w h; exact ih _ (inv_step w a h)
 
 theorem reachable_inv (w : World) (h : Reachable w) : Inv w := by
-  obtain ⟨acts, rfl⟩ := h
-  exact inv_run acts _ inv_init
+  obtain ⟨v6, acts, rfl⟩ := h
+  exact inv_run acts _ (inv_init v6)
 
 end Mio.Udp
